@@ -345,6 +345,45 @@ func c03(c *Ctx) {
 			return true
 		})
 		c.Check(usesChar && usesLast, "R1", "trace|checkValue|every byte but the last through checkValueChar, the last through checkValueLast", at(tx.M, fn.Pos()), "structure as specified", "value validation no longer applies the two character classes")
+		// … and what the loop accepts, over the domain of its per-character subject (a rune when the loop ranges over the string:
+		// a narrowing conversion in front of the byte predicate then lets characters ≥ 0x100 through)
+		specMid := func(p int64) bool { return inRange(p, 0x20, 0x7E) && p != ',' && p != '=' }
+		if subj := loopSubject(fn, val); subj != nil {
+			consts := map[int64]bool{}
+			tx.intConstsIn(fn, map[*FuncInfo]bool{}, consts)
+			diff, n := charSetDiff(charPoints(consts, subj.Type()), func(p int64) (bool, bool) { return pe.loopAccepts(fn, subj, p) }, specMid)
+			c.Check(diff == "", "R1", "trace|checkValue|accepted set of every character but the last = 0x20-0x7E without , and = ("+itoa(n)+" points over "+subj.Type().String()+")", at(tx.M, fn.Pos()),
+				"equal on every representative point", "checkValue "+diff+" (a value with that character is accepted by ParseTraceState / Insert and re-injected)")
+		} else {
+			isSubj := func(e ast.Expr) bool {
+				ie, ok := unparen(e).(*ast.IndexExpr)
+				return ok && sameVar(tinfo, ie.X, val) && inLoop(fn, ie)
+			}
+			indexed := false
+			inspectNoLit(fn.Body(), func(n ast.Node) bool {
+				if e, ok := n.(ast.Expr); ok && isSubj(e) {
+					indexed = true
+				}
+				return true
+			})
+			if !indexed {
+				c.Undecided("R1", "trace|checkValue|accepted set of every character but the last", at(tx.M, fn.Pos()), "per-character subject of the loop not found")
+			} else {
+				consts := map[int64]bool{}
+				tx.intConstsIn(fn, map[*FuncInfo]bool{}, consts)
+				diff, n := charSetDiff(charPoints(consts, types.Typ[types.Uint8]), func(p int64) (bool, bool) {
+					pe2 := &predEval{ix: tx, extra: func(e ast.Expr) (constant.Value, bool) {
+						if isSubj(e) {
+							return constant.MakeInt64(p), true
+						}
+						return nil, false
+					}}
+					return pe2.loopAccepts(fn, nil, p)
+				}, specMid)
+				c.Check(diff == "", "R1", "trace|checkValue|accepted set of every character but the last = 0x20-0x7E without , and = ("+itoa(n)+" points over byte)", at(tx.M, fn.Pos()),
+					"equal on every representative point", "checkValue "+diff+" (a value with that character is accepted by ParseTraceState / Insert and re-injected)")
+			}
+		}
 	}
 	if fn := c.Fn(tx, "R1", "ParseTraceState"); fn != nil {
 		// member count: n > maxListMembers rejects, where maxListMembers == 32
